@@ -506,7 +506,7 @@ class ODF2MoinMoin(object):
 
         for node in element.childNodes:
 
-            if node.nodeType == xml.dom.Node.TEXT_NODE:
+            if node.nodeType in (xml.dom.Node.TEXT_NODE, xml.dom.Node.CDATA_SECTION_NODE):
                 buffer.append(node.nodeValue)
 
             elif node.nodeType == xml.dom.Node.ELEMENT_NODE:
